@@ -675,14 +675,17 @@ func detectAccelFromTransitions(selfID StateID, stride int, transitionFn func(in
 		return exitClasses
 	}
 
-	// Find representative bytes for each exit class
-	exitBytes := make([]byte, 0, len(exitClasses))
+	// Collect every byte of each exit class: memchr looks for bytes, not classes,
+	// so a class with several members contributes all of them. More than three
+	// exit bytes cannot be searched for with memchr/memchr2/memchr3.
+	exitBytes := make([]byte, 0, 3)
 	for _, classIdx := range exitClasses {
-		// Find first byte that maps to this class
 		for b := 0; b < 256; b++ {
 			if byteClasses.Get(byte(b)) == classIdx {
+				if len(exitBytes) == 3 {
+					return nil
+				}
 				exitBytes = append(exitBytes, byte(b))
-				break
 			}
 		}
 	}
